@@ -159,3 +159,40 @@ package pruner
 // next block beyond head+1 was written before blocks were reverted: it is rebuilt, not trimmed).
 //@   callsite NewRunningEventFilterHot@*: stored_filter_only_if_not_ahead: $1 == inner ==> next <= latest + 1 || next == floor
 //@   ensures one_snapshot: calls_NewSnapshot == old(calls_NewSnapshot) + 1
+
+// ---- the hash-keyed sweep: the resume point is one past the last block swept (C16, C05) -------------
+// pruneHashKeyedUpto walks the blocks [start, endExclusive) and removes, per block, the hash-keyed
+// lookups and the history entries; it may stop early (cancellation) BETWEEN blocks. The number it
+// returns is where the next run resumes and what the retained-range bookkeeping is advanced to: it
+// is exactly start + the number of blocks whose lookups were removed - a block is never left half
+// swept behind the resume point, nor swept beyond it. The only hash->number lookup spared is the
+// one of endExclusive-1 (the carve-out for the parent hash of the oldest kept block).
+//@ extern func context.Context.Err
+//@ extern func github.com/NethermindEth/juno/db.KeyValueStore.NewBatch
+//@   ensures result != nil
+//@ extern func github.com/NethermindEth/juno/db.Batch.Write
+//@ extern func github.com/NethermindEth/juno/db.Batch.Size
+//@ extern func github.com/NethermindEth/juno/db.Batch.Close
+//@ extern func github.com/NethermindEth/juno/core.GetBlockHeaderHashByNumber
+//@ extern func github.com/NethermindEth/juno/core.GetStateUpdateByBlockNum
+//@   ensures result1 == nil ==> result0 != nil
+//@ extern func github.com/NethermindEth/juno/core.DeleteBlockHeaderNumberByHash
+//@   logged as DeleteNumberByHash
+//@ func deleteTransactionHashReverseLookups
+//@   trusted
+//@   logged as sweepTxLookups
+//@ func pruneStateHistoryFromUpdate
+//@   trusted
+//@   logged as sweepHistory
+//@ func pruneHashKeyedUpto
+//@   props C16 C05
+//@   arith int
+//@   nosafe
+//@   requires database != nil && start <= endExclusive
+//@   modifies *
+//@   assigns calls_DeleteNumberByHash, arg_DeleteNumberByHash_w, arg_DeleteNumberByHash_hash, calls_sweepTxLookups, arg_sweepTxLookups_reader, arg_sweepTxLookups_writer, arg_sweepTxLookups_blockNumber, calls_sweepHistory, arg_sweepHistory_batch, arg_sweepHistory_blockNum, arg_sweepHistory_su
+//@   loop 1: invariant resume_point_follows_the_sweep: start <= blockNum && blockNum <= endExclusive && calls_sweepTxLookups == old(calls_sweepTxLookups) + (blockNum - start) && calls_sweepHistory == old(calls_sweepHistory) + (blockNum - start)
+//@   callsite deleteTransactionHashReverseLookups@*: of_the_block_in_hand: $2 == blockNum
+//@   callsite pruneStateHistoryFromUpdate@*: of_the_block_in_hand: $1 == blockNum && $2 == su
+//@   callsite DeleteBlockHeaderNumberByHash@2: never_the_carve_out: blockNum != endExclusive - 1 && $1 == su.BlockHash
+//@   ensures resume_point_is_one_past_the_last_block_swept: result1 == nil ==> start <= result0 && result0 <= endExclusive && calls_sweepTxLookups == old(calls_sweepTxLookups) + (result0 - start) && calls_sweepHistory == old(calls_sweepHistory) + (result0 - start)
